@@ -35,6 +35,8 @@ ATOMS = [
     ('arr', '(IDENTIFIER arr)', 'arr'), ('arr2', '(IDENTIFIER arr2)', 'arr'),
     ('s', '(IDENTIFIER s)', 'S'), ('s2', '(IDENTIFIER s2)', 'S'), ('sa', '(IDENTIFIER sa)', 'arrS'),
     ('fn0', '(IDENTIFIER fn0)', 'fn0'), ('fn1', '(IDENTIFIER fn1)', 'fn1'), ('fn2', '(IDENTIFIER fn2)', 'fn2'), ('fn3', '(IDENTIFIER fn3)', 'fn3'),
+    ('0.1234567891', '(CONSTANT d:3fbf9add37a756df)', 'int'), ('1.0', '(CONSTANT d:3ff0000000000000)', 'int'),
+    ('1e100', '(CONSTANT d:54b249ad2594c37d)', 'int'), ('0.1', '(CONSTANT d:3fb999999999999a)', 'int'),
 ]
 INT_ATOMS = [i for i, a in enumerate(ATOMS) if a[2] == 'int']
 A_ARR, A_ARR2, A_S, A_S2, A_SA = 14, 15, 16, 17, 18
